@@ -21,9 +21,9 @@ def check_program(b, inst):
         op = b.build(inst["prog"])
     except Exception as e:
         return [("build", "building the operator raised %s: %s" % (type(e).__name__, str(e)[:120]))], 0
-    energy = inst["prog"][-1]["op"] == "gauss"
+    energy = inst["prog"][-1]["op"] in ("gauss", "vcg")
     npts = 0
-    for pt in cc.POINTS:
+    for pt in cc.points_for(inst):
         try:
             val, jac, inner = cc.expected(inst, pt)
         except cc.Singular:
@@ -31,9 +31,10 @@ def check_program(b, inst):
         npts += 1
         try:
             x = b.point(op, pt)
-            plain = np.atleast_1d(op(x).asnumpy()).ravel()
+            flat = lambda f: np.atleast_1d((f["s"] if isinstance(f, ift.MultiField) else f).asnumpy()).ravel()
+            plain = flat(op(x))
             lin = op(ift.Linearization.make_var(x, want_metric=energy))
-            lval = np.atleast_1d(lin.val.asnumpy()).ravel()
+            lval = flat(lin.val)
             J, JT = b.dense_jac(op, lin)
         except Exception as e:
             out.append(("raises", "at %s: %s: %s" % ({k: v.tolist() for k, v in pt.items()}, type(e).__name__, str(e)[:120])))
@@ -63,7 +64,18 @@ def check_program(b, inst):
                             if k2 in op.domain.keys():
                                 M[c2, c] = r[k2].asnumpy()[j2]
                     if not cc.close(M, inner.T @ inner):
-                        out.append(("metric", "%s: metric %s, expected J^T J = %s" % (where, np.round(M, 8).tolist(), np.round(inner.T @ inner, 8).tolist())))
+                        out.append(("metric", "%s: metric %s, expected %s" % (where, np.round(M, 8).tolist(), np.round(inner.T @ inner, 8).tolist())))
+                    # scaling a linearization that carries a metric scales value, Jacobian and metric alike
+                    for c_ in (3.0, 0.25):
+                        for nm, l2 in (("lin * %g" % c_, lin * c_), ("%g * lin" % c_, c_ * lin), ("lin / %g" % (1. / c_), lin / (1. / c_))):
+                            e1 = {kk: np.zeros(2) for kk in op.domain.keys()}
+                            k0 = sorted(op.domain.keys())[0]
+                            e1[k0][0] = 1.
+                            ef = ift.MultiField.from_dict({kk: ift.makeField(b.dom, v) for kk, v in e1.items()}, domain=op.domain)
+                            if l2.metric is None or not cc.close(np.atleast_1d(l2.val.asnumpy()).ravel(), c_ * lval, 1e-12):
+                                out.append(("lin-scale", "%s: %s loses the metric or the value" % (where, nm)))
+                            elif not cc.close(l2.metric(ef)[k0].asnumpy(), c_ * lin.metric(ef)[k0].asnumpy(), 1e-12) or not cc.close(np.atleast_1d(l2.jac(ef).asnumpy()).ravel(), c_ * np.atleast_1d(lin.jac(ef).asnumpy()).ravel(), 1e-12):
+                                out.append(("lin-scale", "%s: the metric / Jacobian of %s is not the scaled one" % (where, nm)))
             except Exception as e:
                 out.append(("metric", "%s: metric raised %s: %s" % (where, type(e).__name__, str(e)[:100])))
     return out, npts
@@ -71,7 +83,7 @@ def check_program(b, inst):
 
 def run(ctx):
     b = cc.Builder()
-    progs = cc.emit_programs(ctx, ctx.quick, "C03")
+    progs = cc.emit_programs(ctx, ctx.quick, "C03", preload="tagged")
     if len(progs) < 300:
         raise tlcmod.MachineryError("too few programs: %d" % len(progs))
     tot = 0
@@ -107,7 +119,7 @@ def replay(ctx, doc):
 
 def selftest(ctx):
     b = cc.Builder()
-    r = tlcmod.run("Calculus", 'CONSTANTS MaxSlots = 2\nFnSet = "few"\nPreload = FALSE\nSPECIFICATION Spec\nINVARIANT Emit\nCHECK_DEADLOCK FALSE\n', workers=1, timeout=900)
+    r = tlcmod.run("Calculus", 'CONSTANTS MaxSlots = 2\nFnSet = "few"\nPreload = "none"\nSPECIFICATION Spec\nINVARIANT Emit\nCHECK_DEADLOCK FALSE\n', workers=1, timeout=900)
     inst = next(i for i in r.emitted if i["prog"][-1]["op"] == "ptw" and i["prog"][-1]["f"] == "tanh")
     with quiet():
         good, _ = check_program(b, inst)
